@@ -8,6 +8,7 @@ use crate::utils::{dump_joints, transition_costs};
 use bitflags::bitflags;
 use nalgebra::Translation3;
 use rayon::prelude::{IntoParallelRefIterator, ParallelIterator};
+use std::f64::consts::PI;
 use std::fmt;
 use std::sync::Arc;
 use std::sync::atomic::{AtomicBool, Ordering};
@@ -218,7 +219,12 @@ impl Cartesian<'_> {
         if self.robot.collides(from) {
             return Err("Onboarding point collides".into());
         }
-        let strategies = self.robot.inverse_continuing(land, from);
+        let strategies: Solutions = self
+            .robot
+            .inverse_continuing(land, from)
+            .iter()
+            .map(|strategy| self.into_joint_window(strategy))
+            .collect();
         if strategies.is_empty() {
             return Err("Unable to start from onboarding point".into());
         }
@@ -252,6 +258,28 @@ impl Cartesian<'_> {
                     strategies.len()
                 ))
             })
+    }
+
+    /// Inverse kinematics returns each angle in the representation nearest to the previous joints,
+    /// which may be a whole turn outside the (non-wrapping) joint range although compliant modulo
+    /// a full turn. A joint-space (RRT) move towards such a value would cross the forbidden arc,
+    /// so targets of these moves are brought into the numeric range first.
+    fn into_joint_window(&self, joints: &Joints) -> Joints {
+        let mut joints = *joints;
+        if let Some(constraints) = self.robot.constraints() {
+            for j in 0..6 {
+                let (from, to) = (constraints.from[j], constraints.to[j]);
+                if from < to {
+                    while joints[j] > to && joints[j] - 2.0 * PI >= from {
+                        joints[j] -= 2.0 * PI;
+                    }
+                    while joints[j] < from && joints[j] + 2.0 * PI <= to {
+                        joints[j] += 2.0 * PI;
+                    }
+                }
+            }
+        }
+        joints
     }
 
     /// Probe the given strategy
@@ -316,6 +344,7 @@ impl Cartesian<'_> {
                     );
                     let solutions = self.robot.inverse_continuing(&to.pose, &prev.joints);
                     for next in solutions {
+                        let next = self.into_joint_window(&next);
                         let path = self.rrt.plan_rrt(&prev.joints, &next, self.robot, stop);
                         if let Ok(path) = path {
                             println!("  ... closed with RRT {} steps", path.len());
